@@ -1019,20 +1019,39 @@ func c02wPlans(thorough bool) []c02wPlan {
 		}
 		return !(plain && strings.HasSuffix(op, "!"))
 	}
+	// out-of-order files among themselves: three flushed batches of series a give two out-of-order files
+	selfOps := []string{"Ra!", "Rb!", "Rc!", "Rd!", "Rg!", "MS", "MO", "LC", "RO"}
 	if !thorough {
 		return []c02wPlan{
 			{Name: "files", Doc: "flushed write batches and reorganisations", Depth: 4, MaxWrites: 2, Ops: fileOps, Knobs: six},
 			{Name: "mem", Doc: "unflushed write batches, flush, reopen", Depth: 3, Ops: memOps, Knobs: []c02wKnobs{{}, small}},
 			{Name: "over", Doc: "unflushed batches over flushed ones", Depth: 3, Ops: overOps, Allow: overAllow, Knobs: []c02wKnobs{{}, small}},
+			{Name: "self", Doc: "three flushed batches of one series, merges of the out-of-order files", Depth: 5, MaxWrites: 3, Ops: selfOps,
+				Allow: c02wWritesFirst, Knobs: []c02wKnobs{{}, small, smallS}},
 		}
 	}
 	return []c02wPlan{
 		{Name: "files", Doc: "flushed write batches and reorganisations", Depth: 5, MaxWrites: 2, Ops: fileOps, Knobs: c02wKnobProduct()},
 		{Name: "mem", Doc: "unflushed write batches, flush, reopen", Depth: 4, Ops: memOps, Knobs: []c02wKnobs{{}, small}},
 		{Name: "over", Doc: "unflushed batches over flushed ones", Depth: 4, Ops: overOps, Allow: overAllow, Knobs: []c02wKnobs{{}, small, smallS}},
-		{Name: "files3", Doc: "three flushed write batches and reorganisations", Depth: 5, MaxWrites: 3, Ops: fileOps,
-			Knobs: []c02wKnobs{small, smallS, {SegLimit: 2, FileSize: c02wTiny, MetaCount: 1, OOOFiles: 1}, {SegLimit: 2, FileSize: c02wTiny, MetaCount: 1, Stream: 1, SelfLevel: 1}}},
+		{Name: "self", Doc: "three flushed batches of one series, merges of the out-of-order files", Depth: 6, MaxWrites: 3, Ops: selfOps,
+			Allow: c02wWritesFirst, Knobs: []c02wKnobs{{}, small, smallS, {SegLimit: 2, FileSize: c02wTiny, MetaCount: 1, OOOFiles: 1},
+				{SegLimit: 2, FileSize: c02wTiny, MetaCount: 1, Stream: 1, SelfLevel: 1}, {SegLimit: 2, MetaCount: 1, MetaZip: 1}}},
+		{Name: "files3", Doc: "three flushed write batches and reorganisations", Depth: 5, MaxWrites: 3, Ops: fileOps, Knobs: []c02wKnobs{small, smallS}},
 	}
+}
+
+// c02wWritesFirst: all write letters of a history come before its first reorganisation
+func c02wWritesFirst(prefix []string, op string) bool {
+	if !c02wIsWrite(op) {
+		return true
+	}
+	for _, o := range prefix {
+		if !c02wIsWrite(o) {
+			return false
+		}
+	}
+	return true
 }
 
 func c02wCPUms() int64 {
